@@ -9,6 +9,10 @@ import os
 import sys
 
 HERE = os.path.dirname(os.path.abspath(__file__))
+if os.environ.get("PYTHONHASHSEED") != "0":
+    # case generation must be a function of (tier, VERIF_SEED) alone
+    os.environ["PYTHONHASHSEED"] = "0"
+    os.execv(sys.executable, [sys.executable] + sys.argv)
 sys.path.insert(0, HERE)
 from lib import core, runner  # noqa: E402
 
